@@ -114,7 +114,7 @@ var floatExamples = []string{"0.5", "1.5", "-0.5", "0.75", "10.5", "0.25", "-1.5
 var strExamples = []string{`""`, `"a"`, `"ab"`, `"abc"`, `"b"`, `"bc"`, `"a.c"`, `"a@b.cc"`, `"http://a.b/c"`, `"550e8400-e29b-41d4-a716-446655440000"`, `"2024-02-29"`, `"2023-01-31T23:59:59Z"`}
 
 var numProbes = []string{"-2", "-1.1", "-1.01", "-1", "-0.99", "-0.9", "-0.1", "-0.01", "0", "0.01", "0.1", "0.4", "0.49", "0.5", "0.51", "0.6", "0.9", "0.99", "1", "1.01", "1.1", "1.5", "2", "9", "9.9", "9.99", "10", "10.01", "10.1", "11", "0.125", "1.25", "1.255",
-	"1.0", "1e0", "10e-1", "0.5e1", "-0.0", "5e-1", "1E1", "0.50", "100e-1"}
+	"1.0", "1e0", "10e-1", "0.5e1", "-0.0", "5e-1", "1E1", "0.50", "100e-1", "1.5e-2", "-2.5E-3", "1.255e+1", "1.255E2", "1.25e1", "12.5e-1", "0.15e1", "1e-1", "1e-2", "15e-3"}
 var strProbes = []string{`""`, `"a"`, `"ab"`, `"abc"`, `"abcd"`, `"b"`, `"ba"`, `"bc"`, `"xbc"`, `"A"`, `"\n"`, `"\""`, `"a"`, `"aXc"`, `"é"`, `"a\nc"`, `"1"`, `"true"`, `"null"`, `"a b"`, `"\\"`, `"\/"`,
 	// an unpaired surrogate escape followed by an ordinary \u escape: the second escape is a character of its own
 	`"\"abc\""`, `"\"\""`, `"\"a\""`, `"\"ab"`, `"a\"\"b"`, `"\\\"a\\\""`,
